@@ -143,6 +143,8 @@ KINDS = {
     "uuid": ({"type": "string", "format": "uuid"}, ["00000000-0000-0000-0000-000000000000"], [], True),
     "date": ({"type": "string", "format": "date"}, ["2020-02-29"], [], True),
 }
+FLOAT_SPELLED = {"i64": [5.0], "u8": [7.0], "opt_u64": [5.0], "vec": [[80.0, 443.0]], "typed_enum": [2.0], "struct": [{"x": 1e3}], "tuple2": None, "map_int": [{"a": 2.0}], "nz32": [3.0]}
+FLOAT_SPELLED = {k: v for k, v in FLOAT_SPELLED.items() if v}
 QUICK_KINDS = ["bool", "u8", "i64", "nz32", "f64", "string", "str_max2", "str_enum", "opt_scalar", "opt_struct", "vec", "set", "map_int", "map_any", "map_key", "map_enum_key", "map_patprops", "map_key_len",
                "tuple1", "tuple2", "struct", "struct_closed", "struct_renamed", "alias", "struct_req_nullable", "struct_nested_defaults", "struct_inline_defaults", "enum_inline_defaults", "struct_flat", "struct_flat_renamed", "struct_flat_renamed_inline", "enum_ext", "enum_int", "opt_u64", "vec_u64", "map_u64", "tuple_u64", "struct_u64", "enum_adj", "enum_adj_closed", "enum_int_closed", "enum_ext_closed", "enum_adj3", "allof_struct", "tuple_unit", "struct_unit_member", "enum_unt", "enum_ext_tuple", "enum_adj_tuple", "enum_unt_struct", "deny_list", "str_pattern", "str_mb", "str_min3_mb", "str_minmax",
                "typed_enum", "boxed", "unit", "uuid"]
@@ -163,6 +165,8 @@ def cases(tier, seed):
         if tier == "quick":
             cands = cands[:2] + [c for c in cands if not c[1]][:2]
             cands = [c for i, c in enumerate(cands) if c not in cands[:i]]
+        # integral values spelled as floats (5.0, 1e3) at integer positions: valid JSON Schema integers; typify may reject them or must reproduce them
+        cands += [(d, True, "float-spelled") for d in FLOAT_SPELLED.get(k, [])]
         # candidates derived from the kind's instance universe (valid and invalid by the oracle), beyond the hand-listed ones
         seen_c = {canon(d) for d, _, _ in cands} | {canon(d) for d in good + bad}
         orc = oracle.Oracle({"allOf": [schema], "definitions": DEFS})
@@ -296,6 +300,9 @@ def execute(cases_, tier, seed):
                 res.violations.append(Violation(c["key"], "invalid-default:" + outcome, "%s: default %s is not valid for its schema but add gives %s" % (c["id"], json.dumps(c["default"]), outcome),
                                                 c, expected="Err when the schema is added", observed={"outcome": outcome, "detail": detail}, features=feats, items=[c["default"]]))
             continue
+        if outcome == "err" and c.get("src") == "float-spelled":
+            hist[("float-spelled", "err")] = hist.get(("float-spelled", "err"), 0) + 1
+            continue   # rejecting the float spelling of an integer is the other allowed outcome
         if outcome == "err" and c.get("src") == "universe+zz":
             hist[("unrepresentable", "err")] = hist.get(("unrepresentable", "err"), 0) + 1
             continue   # a default carrying undeclared members cannot be reproduced exactly by the struct: rejecting it is the other allowed outcome
